@@ -231,7 +231,8 @@ class Rig:
             problems.append('EOF-not-read-once')
         errs = self.node.errors_logged()
         if errs:
-            problems.append('error-logged:' + norm(errs[0][2].strip().splitlines()[-1] if errs[0][2].strip() else ''))
+            last = errs[0][2].strip().splitlines()[-1] if errs[0][2].strip() else ''
+            problems.append('error-logged:' + norm(last.split(':')[0])[:40])
         if not sock.closed:
             problems.append('socket-not-closed')
         if len(disp._connections) != nconn or handler in disp._connections:
@@ -440,7 +441,7 @@ def judge_output(reqs, out, part, case, where):
                                f'request {req.raw[:80]!r} (action is not UTF-8) answered {raw[:120]!r}, expected error_...')
                 continue
         elif a not in allowed:
-            got = 'ident-reply' if a == IDENTREPLY else norm(a)
+            got = 'ident-reply' if a == IDENTREPLY else a if a in REQUEST2REPLY.values() else 'an-unknown-action'
             # an error reply naming another action: the framing / decoding lost the request's action - one class for all actions
             sig = f'C07:O3:error-reply-names-a-different-action:{req.lcls()}' if iserr else \
                 f'C07:O3:{req.acls()}:answered-with-{got}'
@@ -539,22 +540,18 @@ def newline_positions(stream, radius):
 
 
 def seg_class(stream, cuts, nones):
+    """segmentation class for signatures"""
     if nones:
-        t = 'timeouts'
-    elif len(cuts) == len(stream) - 1 and len(stream) > 1:
+        return 'with-timeouts'
+    if len(cuts) == len(stream) - 1 and len(stream) > 1:
         return 'one-byte-chunks'
-    else:
-        t = f'{min(len(cuts), 3)}{"+" if len(cuts) >= 3 else ""}-cuts'
     if any(stream[c - 1:c] == LF for c in cuts):
-        t += ':chunk-ends-with-LF'
-    elif cuts:
-        t += ':mid-line'
-    return t
+        return 'a-chunk-ends-with-LF'
+    return 'cuts-inside-lines' if cuts else 'one-piece'
 
 
 def explore_segmentations(rig, stream, base, segs, part, stream_case):
     """O6 (+O5) for every segmentation in segs = iterable of (cuts, nones)"""
-    nreq = stream.count(LF)
     for cuts, nones in segs:
         part.evaluations += 1
         run = rig.run(chunks_of(stream, cuts, nones))
@@ -568,7 +565,7 @@ def explore_segmentations(rig, stream, base, segs, part, stream_case):
             got = run.out.count(LF)
             exp = base.count(LF)
             how = 'fewer-lines' if got < exp else 'more-lines' if got > exp else 'different-lines'
-            part.violation(f'C07:O6:output-depends-on-segmentation:{how}:{sc}:{min(nreq, 3)}-line-stream', case,
+            part.violation(f'C07:O6:output-depends-on-segmentation:{how}:{sc}', case,
                            f'stream {stream[:120]!r} ({len(stream)} bytes) cut at {list(cuts)[:20]} timeouts {nones}: '
                            f'output {run.out[:300]!r}, in one piece {base[:300]!r}')
             part.outcomes['segmentation:differs'] += 1
